@@ -25,7 +25,7 @@ def _carrier(c):
         return stim.ToneFactory(FS, 50.0 + 7 * c, 1.0 + 0.1 * c)
     if k == 1:
         return stim.SilenceFactory(fill_value=2 + c)
-    return stim.BroadbandNoiseFactory(FS, 1.0, seed=c)
+    return stim.BroadbandNoiseFactory(FS, 1.0, seed=c // 3)      # c = 2 -> seed 0 (a falsy seed is still a seed)
 
 
 def _wave(w, n):
